@@ -46,6 +46,8 @@ type MetaCfg struct {
 	DebFields    map[string]string   `json:"deb_fields,omitempty"`
 	DebTriggers  map[string][]string `json:"deb_triggers,omitempty"`
 	Changelog    bool                `json:"changelog,omitempty"`
+	// ChangelogFile: with Changelog, another fixture changelog than the standard one ("changelog-unordered.yaml")
+	ChangelogFile string `json:"changelog_file,omitempty"`
 	// RelBlanks: the relation lists are written with items that expand to nothing (unset variables) in between;
 	// the relations the package states are the remaining items, in order.
 	RelBlanks bool `json:"rel_blanks,omitempty"`
